@@ -52,6 +52,10 @@ def work(tier, seed):
     for bl in ot.order_types(b["max_pos"], b["max_neg"]):
         items.append({"kind": "shapes", "blocks": [list(x) for x in bl]})
     items.append({"kind": "pointwise"})
+    for k in range(4):
+        items.append({"kind": "large_arrays", "which": k})
+    items.append({"kind": "scalar_kinds"})
+    items.append({"kind": "long_history"})
     return items
 
 
@@ -99,6 +103,12 @@ def run(item, ctx, tier, seed):
         return _run_history(item, ctx)
     if item["kind"] == "pointwise":
         return _run_pointwise(ctx, b)
+    if item["kind"] == "large_arrays":
+        return _run_large_arrays(item, ctx, tier)
+    if item["kind"] == "scalar_kinds":
+        return _run_scalar_kinds(ctx)
+    if item["kind"] == "long_history":
+        return _run_long_history(ctx, tier)
     from score_analysis import Scores
 
     blocks = [tuple(x) for x in item["blocks"]]
@@ -232,6 +242,194 @@ def run(item, ctx, tier, seed):
                          observed=[pin_arr, nin_arr], expected=[pos[::-1], neg[::-1]])
             ctx.outcome((tuple(map(tuple, blocks)), cfg, ep, en))
     ctx.sample({"kind": "shapes", "pos": pos, "neg": neg, "shapes": b["shapes"], "layouts": b["layouts"]})
+    return None
+
+
+def _ref_object():
+    from score_analysis import Scores
+
+    pos = [((i * 37) % 101) / 8.0 for i in range(23)]
+    neg = [((i * 53 + 7) % 89) / 8.0 - 2.0 for i in range(31)]
+    return pos, neg
+
+
+def _run_large_arrays(item, ctx, tier):
+    """Threshold / target arrays beyond 2^15 and 2^16 elements in every memory layout (code paths that switch on size)."""
+    from mc import refs
+    from score_analysis import Scores
+
+    pos, neg = _ref_object()
+    spos, sneg = sorted(pos), sorted(neg)
+    cfg = ot.CFGS[item["which"]]
+    s = Scores(pos, neg, nb_easy_pos=1, nb_easy_neg=2, score_class=cfg[0], equal_class=cfg[1])
+    shapes = [(200, 180), (3, 150, 80), (2 ** 16 + 8,), (257, 257)] + ([(1100, 1000)] if tier != "quick" else [])
+    alphabet = sorted(set(pos + neg))
+    alphabet = [v + d for v in alphabet for d in (0.0, 0.0625)] + [-100.0, 100.0]
+    for si, shape in enumerate(shapes):
+        for layout in ("C", "F", "T", "strided"):
+            if layout in ("F", "T") and len(shape) < 2:
+                continue
+            size = int(np.prod(shape))
+            flat = np.array(alphabet, dtype=float)[(np.arange(size) * 7 + si) % len(alphabet)]
+            arr = flat.reshape(shape)
+            if layout == "F":
+                arr = np.asfortranarray(arr)
+            elif layout == "T":
+                arr = np.ascontiguousarray(arr.T).T
+            elif layout == "strided":
+                big = np.full(shape[:-1] + (shape[-1] * 2,), -777.0)
+                big[..., ::2] = arr
+                arr = big[..., ::2]
+            before = arr.copy()
+            case = {"kind": "large_arrays", "shape": list(shape), "layout": layout, "cfg": list(cfg), "n_pos": len(pos), "n_neg": len(neg)}
+            ctx.state()
+            ctx.nontrivial()
+            ok, m = guarded(ctx, "cm", case, lambda: s.cm(arr).matrix)
+            ctx.tick(size)
+            if ok:
+                if m.shape != shape + (2, 2):
+                    ctx.fail("result-shape", dict(case, query="cm"), observed=list(m.shape), expected=list(shape) + [2, 2])
+                else:
+                    mf = m.reshape(size, 2, 2)
+                    cache = {}
+                    for k in range(size):
+                        t = float(flat[k])
+                        if t not in cache:
+                            cache[t] = refs.ref_cm_sorted(spos, sneg, t, cfg[0], cfg[1], 1, 2)
+                        if mf[k].tolist() != cache[t]:
+                            ctx.fail("element-equals-scalar-call", dict(case, query="cm", index=list(np.unravel_index(k, shape)), argument=t),
+                                     observed=mf[k], expected=cache[t])
+                            break
+            for r in ("tpr", "fpr", "tonr"):
+                ok, v = guarded(ctx, r, case, lambda: np.asarray(getattr(s, r)(arr)))
+                ctx.tick(size)
+                if ok:
+                    if v.shape != shape:
+                        ctx.fail("result-shape", dict(case, query=r), observed=list(v.shape), expected=list(shape))
+                        continue
+                    vf = v.reshape(size)
+                    sc_cache = {}
+                    for k in range(0, size, 1):
+                        t = float(flat[k])
+                        if t not in sc_cache:
+                            sc_cache[t] = getattr(s, r)(t)
+                        if not (vf[k] == sc_cache[t]):
+                            ctx.fail("element-equals-scalar-call", dict(case, query=r, index=list(np.unravel_index(k, shape)), argument=t),
+                                     observed=float(vf[k]), expected=sc_cache[t])
+                            break
+            if not np.array_equal(arr, before):
+                ctx.fail("caller-array-unchanged", dict(case, query="cm/rates"), observed="changed", expected="unchanged")
+            # threshold setting on a target array of the same shape / layout
+            tgt_alpha = np.array([-0.25, 0.0, 0.1, 0.2, 1 / 3, 0.5, 0.6, 0.75, 0.9, 1.0, 1.25])
+            tflat = tgt_alpha[(np.arange(size) * 5 + si) % len(tgt_alpha)]
+            tg = tflat.reshape(shape)
+            tg = np.asfortranarray(tg) if layout == "F" else (np.ascontiguousarray(tg.T).T if layout == "T" else tg)
+            for st in ("tpr", "fpr", "topr"):
+                ok, v = guarded(ctx, "threshold_at_" + st, case, lambda: np.asarray(getattr(s, "threshold_at_" + st)(tg)))
+                ctx.tick(size)
+                if ok:
+                    if v.shape != shape:
+                        ctx.fail("result-shape", dict(case, query="threshold_at_" + st), observed=list(v.shape), expected=list(shape))
+                        continue
+                    single = {float(r_): getattr(s, "threshold_at_" + st)(float(r_)) for r_ in tgt_alpha}
+                    want = np.array([single[float(r_)] for r_ in tflat])
+                    if not np.array_equal(v.reshape(size), want):
+                        k = int(np.argmax(v.reshape(size) != want))
+                        ctx.fail("element-equals-scalar-call", dict(case, query="threshold_at_" + st, index=list(np.unravel_index(k, shape)),
+                                                                    argument=float(tflat[k])), observed=float(v.reshape(size)[k]), expected=float(want[k]))
+    ctx.sample({"kind": "large_arrays", "shapes": [list(x) for x in shapes], "layouts": ["C", "F", "T", "strided"], "cfg": list(cfg)})
+    return None
+
+
+def _run_scalar_kinds(ctx):
+    """
+    One real number handed over as Python float / int, np.float64, np.float32 (when representable), 0-d array,
+    1-element array and list - on objects whose scores are float32, float64, int64 or uint8: every kind must be
+    answered like the float64 value it denotes (counting reference on the exact score values).
+    """
+    from mc import refs
+    from score_analysis import Scores
+
+    objs = []
+    for dt in (np.float32, np.float64, np.int64, np.uint8):
+        if np.dtype(dt).kind == "f":
+            pos = np.array([0.7, 0.1, 0.3, 2.5], dtype=dt)
+            neg = np.array([0.2, 0.7, 0.6, 1.1], dtype=dt)
+        else:
+            pos = np.array([7, 1, 3, 25], dtype=dt)
+            neg = np.array([2, 7, 6, 11], dtype=dt)
+        objs.append((np.dtype(dt).name, pos, neg))
+    for dname, pos, neg in objs:
+        ep_, en_ = [float(v) for v in pos.tolist()], [float(v) for v in neg.tolist()]  # exact values of the stored scores
+        vals = sorted(set(ep_ + en_))
+        thr = []
+        for v in vals:
+            thr += [v, math.nextafter(v, math.inf), math.nextafter(v, -math.inf), round(v, 1), round(v, 1) + 1e-9, float(np.float32(v)), float(int(v)), float(int(v) + 1)]
+        thr += [0.7, 0.1, 0.30000000000000004, 16777217.0, -1.0]
+        thr = list(dict.fromkeys(thr))
+        for cfg in ot.CFGS:
+            s = Scores(pos.copy(), neg.copy(), nb_easy_pos=1, score_class=cfg[0], equal_class=cfg[1])
+            for t in thr:
+                want = refs.ref_cm(ep_, en_, t, cfg[0], cfg[1], 1, 0)
+                kinds = [("python-float", t), ("np.float64", np.float64(t)), ("0-d-array", np.array(t)), ("1-element-array", np.array([t])),
+                         ("list", [t])]
+                if float(t).is_integer() and abs(t) < 2 ** 62:
+                    kinds += [("python-int", int(t)), ("np.int64", np.int64(int(t)))]
+                if float(np.float32(t)) == t:
+                    kinds.append(("np.float32", np.float32(t)))
+                ctx.state()
+                for kname, arg in kinds:
+                    case = {"kind": "scalar_kinds", "score_dtype": dname, "pos": ep_, "neg": en_, "cfg": list(cfg), "threshold": t,
+                            "passed_as": kname}
+                    ok, m = guarded(ctx, "cm", case, lambda: np.asarray(s.cm(arg).matrix).reshape(2, 2).tolist())
+                    ctx.tick()
+                    if dname == "float32" and float(np.float32(t)) != t:
+                        ctx.nontrivial()
+                    if ok and m != want:
+                        ctx.fail("element-equals-scalar-call", dict(case, query="cm"), observed=m, expected=want)
+                    ok, v = guarded(ctx, "tpr", case, lambda: float(np.asarray(s.tpr(arg)).reshape(-1)[0]))
+                    ctx.tick()
+                    wv = refs.ref_rates(want)["tpr"]
+                    if ok and not refs.same_float(v, wv):
+                        ctx.fail("element-equals-scalar-call", dict(case, query="tpr"), observed=v, expected=None if wv is None else float(wv))
+    ctx.sample({"kind": "scalar_kinds", "score_dtypes": [o[0] for o in objs]})
+    return None
+
+
+def _run_long_history(ctx, tier):
+    """Hundreds of queries with pairwise distinct arguments on one object, then the first arguments again (bounded caches)."""
+    from mc import refs
+    from score_analysis import Scores
+
+    pos, neg = _ref_object()
+    spos, sneg = sorted(pos), sorted(neg)
+    n = 700 if tier == "quick" else 5000
+    for cfg in ot.CFGS[:2]:
+        s = Scores(pos, neg, nb_easy_neg=3, score_class=cfg[0], equal_class=cfg[1])
+        args = [(-3.0 + 17.0 * ((k * 0.6180339887498949) % 1.0)) for k in range(n)]
+        hist = args + args[:40]
+        ctx.state()
+        for step, t in enumerate(hist):
+            case = {"kind": "long_history", "cfg": list(cfg), "step": step, "threshold": t, "distinct_arguments_before": min(step, n)}
+            want = refs.ref_cm_sorted(spos, sneg, t, cfg[0], cfg[1], 0, 3)
+            arg = t if step % 3 else np.array([t, t + 0.03125])
+            ok, m = guarded(ctx, "cm", case, lambda: np.asarray(s.cm(arg).matrix).reshape(-1, 2, 2)[0].tolist())
+            ctx.tick()
+            ctx.nontrivial()
+            if ok and m != want:
+                ctx.fail("element-equals-scalar-call", dict(case, query="cm"), observed=m, expected=want)
+                break
+            r = (k_ := step % 997) / 997.0
+            for st in ("tpr", "fpr"):
+                ok, th = guarded(ctx, "threshold_at_" + st, dict(case, target=r), lambda: float(getattr(s, "threshold_at_" + st)(r)))
+                ctx.tick()
+                if ok:
+                    got = refs.ref_rates(refs.ref_cm_sorted(spos, sneg, th, cfg[0], cfg[1], 0, 3))[st]
+                    npop = len(pos) if st == "tpr" else len(neg) + 3
+                    if abs(float(got) - min(max(r, 0.0), 1.0)) > 1.0 / npop + 1e-12 and not (st == "fpr" and r > len(neg) / npop):
+                        ctx.fail("threshold-setting-after-long-history", dict(case, target=r, setter=st), observed=float(got), expected=r)
+                        break
+    ctx.sample({"kind": "long_history", "distinct_arguments": n, "requeried": 40})
     return None
 
 
